@@ -455,6 +455,16 @@ func genC09Plan(r *zsim.Rng) *sysPlan {
 		}
 		p.HoldOpen = r.Chance(1, 3)
 	}
+	// a second input for reload (never together with staged stdin: one moving part at a time)
+	p.Gens = []lineSpec{p.Lines, {N: []int{0, 1, r.Range(2, 40), r.Range(20, 300)}[r.Intn(4)], Seed: r.Seed53(), Shape: r.Intn(4)}}
+	reloadKey := ""
+	if feeds == 0 && r.Chance(1, 3) {
+		reloadKey = "ctrl-r"
+		p.Args = append(p.Args, "--bind", "ctrl-r:reload(GEN 1)")
+		if r.Chance(1, 2) {
+			p.GenProc = []procSpec{{Chunks: []int{r.Range(1, 30)}, DelaysMs: []int{[]int{0, 10, 400, 400, 900}[r.Intn(5)]}}}
+		}
+	}
 	// bind a random subset of the vocabulary
 	perm := make([]int, len(c09Actions))
 	for i := range perm {
@@ -511,6 +521,19 @@ func genC09Plan(r *zsim.Rng) *sysPlan {
 			ev.Keys = b.key
 			ev.Tag = b.action
 		}
+		if reloadKey != "" && r.Chance(1, 12) {
+			ev.Keys, ev.Tag = reloadKey, "reload(GEN 1)"
+			p.Events = append(p.Events, ev)
+			if r.Bool() {
+				// keys right behind the reload: they still see the old list
+				for k := r.Range(1, 3); k > 0; k-- {
+					b := bound[r.Intn(len(bound))]
+					p.Events = append(p.Events, sysEvent{Kind: "keys", Keys: b.key, Tag: b.action, DelayMs: r.Intn(3)})
+				}
+				p.Events = append(p.Events, sysEvent{Kind: "settle"})
+			}
+			continue
+		}
 		p.Events = append(p.Events, ev)
 		if settleEach || r.Chance(1, 5) {
 			p.Events = append(p.Events, sysEvent{Kind: "settle"})
@@ -547,6 +570,7 @@ type c09State struct {
 	listExact bool
 	syncedAt  int // number of events the model had applied at the last fully successful comparison
 
+	reloadPending bool // reload(GEN 1) was issued; the new input takes over at the next settle
 	stage       int  // input stages the model has seen written
 	tail        int  // --tail
 	cursorLoose bool // the list went through states the model cannot know (trimming): any cursor inside the list is legitimate
@@ -695,9 +719,23 @@ func c09Settle(r *sysRun, st *c09State, busy bool, final bool) {
 	burstQueryChanged := false
 	burstFed := false
 	queryChanges := 0
+	arrive := func() {
+		// the new input replaces the old one: nothing stays selected, the list is the new input filtered; which
+		// intermediate lists the cursor was clamped against while it loaded is timing
+		st.reloadPending = false
+		st.lines = genLines(r.plan.Gens[1])
+		m.sel = nil
+		st.listValid = false
+		st.refreshList(r)
+		st.cursorLoose = true
+		c.count("probe.reload_modelled", 1)
+	}
 	for i := range r.plan.Events {
 		ev := r.plan.Events[i]
 		if ev.Kind == "settle" {
+			if st.reloadPending && i >= st.applied {
+				arrive()
+			}
 			settles++
 			if settles >= r.settleN && !final {
 				st.applied = maxInt(st.applied, i+1)
@@ -745,6 +783,27 @@ func c09Settle(r *sysRun, st *c09State, busy bool, final bool) {
 			continue
 		}
 		if ev.Kind != "keys" {
+			continue
+		}
+		if eventTag(r.plan, &ev) == "reload(GEN 1)" && len(r.plan.Gens) > 1 {
+			if m.jumping {
+				m.jumping = false // the key only answers the jump prompt (not a label: cancelled)
+				continue
+			}
+			// the keys that follow in the same burst still act on the old list - as long as the new input cannot
+			// have arrived yet (a command that takes 300 ms to say anything, keys within 100 ms); then
+			// everything is replaced
+			st.reloadPending = true
+			slow := len(r.plan.GenProc) > 0 && len(r.plan.GenProc[0].DelaysMs) > 0 && r.plan.GenProc[0].DelaysMs[0] >= 300
+			elapsed := 0
+			for k := i + 1; k < len(r.plan.Events) && r.plan.Events[k].Kind != "settle"; k++ {
+				elapsed += r.plan.Events[k].DelayMs
+			}
+			if !slow || elapsed > 100 {
+				burstQueryChanged = true
+			} else {
+				c.count("probe.keys_between_reload_and_arrival", 1)
+			}
 			continue
 		}
 		tag := eventTag(r.plan, &ev)
@@ -836,6 +895,9 @@ func c09Settle(r *sysRun, st *c09State, busy bool, final bool) {
 				st.cursorLoose = true
 			}
 		}
+	}
+	if st.reloadPending {
+		arrive()
 	}
 	if !st.listValid {
 		st.refreshList(r)
